@@ -704,6 +704,20 @@ impl Packet {
                 unsafe {
                     use core::ptr;
                     let buf_len = options_bytes.len();
+                    #[cfg(coap_lite_verif)]
+                    crate::verif::copy_event(
+                        1,
+                        options_bytes.capacity(),
+                        buf_len,
+                        header.len(),
+                    );
+                    #[cfg(coap_lite_verif)]
+                    crate::verif::copy_event(
+                        2,
+                        options_bytes.capacity(),
+                        buf_len + header.len(),
+                        value.len(),
+                    );
                     ptr::copy(
                         header.as_ptr(),
                         options_bytes.as_mut_ptr().add(buf_len),
@@ -740,6 +754,20 @@ impl Packet {
                 unsafe {
                     use core::ptr;
                     let buf_len = buf.len();
+                    #[cfg(coap_lite_verif)]
+                    crate::verif::copy_event(
+                        3,
+                        buf.capacity(),
+                        buf_len,
+                        self.token.len(),
+                    );
+                    #[cfg(coap_lite_verif)]
+                    crate::verif::copy_event(
+                        4,
+                        buf.capacity(),
+                        buf_len + self.token.len(),
+                        options_bytes.len(),
+                    );
                     ptr::copy(
                         self.token.as_ptr(),
                         buf.as_mut_ptr().add(buf_len),
@@ -763,6 +791,13 @@ impl Packet {
                     unsafe {
                         use core::ptr;
                         let buf_len = buf.len();
+                        #[cfg(coap_lite_verif)]
+                        crate::verif::copy_event(
+                            5,
+                            buf.capacity(),
+                            buf_len,
+                            self.payload.len(),
+                        );
                         ptr::copy(
                             self.payload.as_ptr(),
                             buf.as_mut_ptr().add(buf.len()),
